@@ -137,20 +137,41 @@ def build_regular(cfg, with_order=True):
 
 def build_lattice(cfg, order):
     """The real lattice for the spec case `cfg`; `order` (spec value) is only used as *input* for
-    custom permutations (ord.kind == 'perm')."""
+    custom permutations (ord.kind == 'perm').  Observations made on the way (behaviour of a constructor that
+    the caller has to judge) are stored in `lat._verif_flags`."""
     from tenpy.models import lattice as tl
     s = the_site()
     cls = cfg['cls']
+    flags = {}
     perm = cfg['ord']['kind'] == 'perm'
+    if cfg.get('parent'):
+        # derived lattice: build the parent (a fresh object, the operations are in place), then derive
+        par = build_lattice(cfg['parent'], None)
+        flags.update(getattr(par, '_verif_flags', {}))
+        if cls == 'Grouped':
+            from tenpy.networks.site import group_sites
+            grouped = group_sites(par.mps_sites(), cfg['grp'], charges='same')
+            lat = par.with_grouped_sites(grouped)
+        else:
+            par.mps_sites()  # fill the cache of the sites: it has to be invalidated by the enlargement
+            par.enlarge_mps_unit_cell(cfg['enl'])
+            lat = par
+        lat._verif_flags = flags
+        return lat
     if cls == 'Multi':
-        simple = build_regular(cfg, with_order=False)
-        lat = tl.MultiSpeciesLattice(simple, [s] * cfg['nsp'])
         if perm:
+            lat = tl.MultiSpeciesLattice(build_regular(cfg, with_order=False), [s] * cfg['nsp'])
             lat.order = np.array(order, dtype=np.intp)
         else:
-            lat.order = lat.ordering(order_arg(cfg['ord']))
-        return lat
-    if cls == 'Irregular':
+            # like IrregularLattice and HelicalLattice: the given lattice is taken with its order
+            simple = build_regular(cfg, with_order=False)
+            simple.order = simple.ordering(order_arg(cfg['ord']))
+            lat = tl.MultiSpeciesLattice(simple, [s] * cfg['nsp'])
+            exp = lat.ordering(order_arg(cfg['ord']))  # = the order of `simple` with the species inserted
+            if not np.array_equal(np.asarray(lat.order), exp):
+                flags['multi_ignores_simple_order'] = dict(got=np.asarray(lat.order).tolist(), simple_order=simple.order.tolist())
+                lat.order = exp  # continue with the intended order so that the other queries are still checked
+    elif cls == 'Irregular':
         reg = build_regular(cfg)
         remove = [list(x) for x in cfg['removed']] or None
         add = None
@@ -160,14 +181,15 @@ def build_lattice(cfg, order):
                    [None if a['where'] == 999 else a['where'] + 0.5 for a in cfg['added']])
             auc = [s]
         # (add_positions given explicitly: the default has `dim` instead of `Dim` columns, which fails for ladders)
-        return tl.IrregularLattice(reg, remove=remove, add=add, add_unit_cell=auc,
-                                   add_positions=np.zeros((len(auc), reg.basis.shape[1])))
-    if cls == 'Helical':
-        reg = build_regular(cfg)
-        return tl.HelicalLattice(reg, cfg['hcells'])
-    lat = build_regular(cfg)
-    if perm:
-        lat.order = np.array(order, dtype=np.intp)
+        lat = tl.IrregularLattice(reg, remove=remove, add=add, add_unit_cell=auc,
+                                  add_positions=np.zeros((len(auc), reg.basis.shape[1])))
+    elif cls == 'Helical':
+        lat = tl.HelicalLattice(build_regular(cfg), cfg['hcells'])
+    else:
+        lat = build_regular(cfg)
+        if perm:
+            lat.order = np.array(order, dtype=np.intp)
+    lat._verif_flags = flags
     return lat
 
 
